@@ -171,6 +171,22 @@ func mutations(r *spec.Rand, w []byte, emit func(kind string, b []byte)) {
 		re("remlen-10byte", []byte{0xff, 0xff, 0xff, 0xff, 0xff, 0xff, 0xff, 0xff, 0xff, 0x7f})
 		re("remlen-10byte", []byte{0x80, 0x80, 0x80, 0x80, 0x80, 0x80, 0x80, 0x80, 0x80, 0x01})
 		re("remlen-nonminimal", append([]byte{byte(remlen&0x7f) | 0x80}, rc.AppendVarint(nil, remlen>>7)...))
+		// padded (non-minimal) remaining lengths, complete and with the last 1..4 bytes missing:
+		// the fixed header is then longer than the canonical one for the same value
+		min := rc.AppendVarint(nil, remlen)
+		for pad := 1; len(min)+pad <= 4; pad++ {
+			lb := append([]byte{}, min...)
+			lb[len(lb)-1] |= 0x80
+			for k := 1; k < pad; k++ {
+				lb = append(lb, 0x80)
+			}
+			lb = append(lb, 0x00)
+			re("remlen-padded", lb)
+			full := append(append([]byte{w[0]}, lb...), body...)
+			for cut := 1; cut <= 4 && cut < len(full); cut++ {
+				emit("remlen-padded-truncated", full[:len(full)-cut])
+			}
+		}
 		// header only, nothing after it
 		emit("header-only", w[:hdr])
 		emit("type-only", w[:1])
